@@ -90,9 +90,17 @@ func C18() *vk.Check {
 			p.Croak = false
 			return p
 		},
+		Config: func(r *vk.RNG, a *app.App, cfg *app.Config) {
+			if r.Chance(1, 3) {
+				// an external function installed with Engine.WithFirst: called by every new engine before the
+				// session's code, it must see the language the session was saved with
+				a.Funcs["_first"] = &app.FuncSpec{Sym: "_first", Kind: "idlang"}
+				cfg.First = true
+			}
+		},
 		NonTrivial: func(s *sessStats) bool { return len(s.Langs) >= 2 }}
 	return &vk.Check{ID: "C18", Level: "exploration", MinEvaluations: 300, Shards: func(string) int { return 16 }, Run: mc.run,
-		Rule:        "reference-model monitor: applications with a language switcher (results cycle through valid 2- and 3-letter codes, invalid strings and the empty string, returned with the LANG flag) loaded/reloaded at arbitrary points, translations present for random subsets of templates and labels, language configured or not. Every GetCode/FuncFor/function/GetTemplate/GetMenu callback of the session must carry exactly the model's language (context value \"Language\"), State.Language in the live state and decoded stored snapshot must equal it, and each page must equal the text composed from the translation table (translation if present, default otherwise). distinct = hash(app, history, driver); non-trivial = lookups under at least two different languages were observed.",
+		Rule:        "reference-model monitor: applications with a language switcher (results cycle through valid 2- and 3-letter codes, invalid strings and the empty string, returned with the LANG flag) loaded/reloaded at arbitrary points, translations present for random subsets of templates and labels, language configured or not, in a third of the cases with a language-dependent pre-VM function (Engine.WithFirst). Every GetCode/FuncFor/function/GetTemplate/GetMenu callback of the session must carry exactly the model's language (context value \"Language\"), State.Language in the live state and decoded stored snapshot must equal it, and each page must equal the text composed from the translation table (translation if present, default otherwise). distinct = hash(app, history, driver); non-trivial = lookups under at least two different languages were observed.",
 		Assumptions: []string{modelAssumption, "an empty string returned with LANG is documented as 'reset': what lookups carry afterwards is don't-care until the next valid code"}}
 }
 
